@@ -77,6 +77,23 @@ import (
 	"example.com/m/tr"
 )
 
+// Trail / Trail2: slices, pointers and maps of a type from a package that the home package reaches only through
+// ext (like a []time.Time or []uuid.UUID field of an imported model): whoever prints "make([]T, n)" for them has to
+// qualify T although the setup file imports nothing of the kind.
+type Trail struct {
+	Stamps []audit.Stamp
+	Ptrs   []*audit.Stamp
+	One    audit.Stamp
+	N      int
+}
+
+type Trail2 struct {
+	Stamps []audit.Stamp
+	Ptrs   []*audit.Stamp
+	One    audit.Stamp
+	N      int64
+}
+
 // Record / Record2 hold a struct of a package that the home package does not import itself.
 type Record struct {
 	Stamp audit.Stamp
@@ -312,6 +329,7 @@ var KnownPkgs = []struct{ Qual, Alias, Path string }{
 	{"hooks", "", ModulePath + "/hooks"},
 	{"hooksv2", "hooksv2", ModulePath + "/hooks/v2"},
 	{"e", "e", ModulePath + "/enums"},
+	{"audit", "", ModulePath + "/deep/audit"}, // never imported by generated setup files; the behavioural driver names its types
 }
 
 // LocalZooSrc holds the local named types of the home package (ordinary build).
@@ -529,6 +547,8 @@ var Alphabet = []TypeAtom{
 	{"Stamp2", "", "struct-local-same-name-as-indirect"},
 	{"ext.Record", "Record", "struct-imported-with-indirect-member"},
 	{"ext.Record2", "Record2", "struct-imported-with-indirect-member"},
+	{"ext.Trail", "Trail", "struct-imported-with-indirect-slices"},
+	{"ext.Trail2", "Trail2", "struct-imported-with-indirect-slices"},
 	{"LDeep", "", "struct-local-deep"},
 	{"LDeep2", "", "struct-local-deep"},
 	{"LWithAnon", "", "struct-local-anon-member"},
